@@ -55,14 +55,16 @@ RealClient(c) ==
          <<Data.tms.origin[1] + c.a[1] * Data.tms.w * upp, Data.tms.origin[2] + c.a[2] * Data.tms.h * upp,
            Data.tms.origin[1] + (c.a[1] + 1) * Data.tms.w * upp, Data.tms.origin[2] + (c.a[2] + 1) * Data.tms.h * upp>>
 
-Binding(c) == IF c.f = "wmsc" THEN B4(c.rect) = ServedWMSC(G, WBox, T3(c.a))
+\* "kmlbox": the LatLonBox a KML super-overlay document publishes next to the image link of tile a = the tile that link serves
+Binding(c) == IF c.f = "kmlbox" THEN B4(c.rect) = Served(G, "kml", T3(c.a))
+              ELSE IF c.f = "wmsc" THEN B4(c.rect) = ServedWMSC(G, WBox, T3(c.a))
               ELSE B4(c.rect) = Served(G, c.f, T3(c.a))            \* real address mapping = model
 \* an advertised WMS-C address the real service refused: the model predicts exactly these refusals
 RefusedBinding(c) == ServedWMSC(G, WBox, T3(c.a)) = NoRect
 BadRefused == {i \in 1 .. Len(Data.refused) : ~RefusedBinding(Data.refused[i])}
 \* C02 on observed values.  /tiles?origin=nw has no capabilities of its own (compared with the WMTS matrices when
 \* WMTS is offered); KML has none either (TMS convention, only meaningful without a profile level shift)
-Property(c) == ((c.f # "tms_nw" \/ Data.wmts.offered) /\ (c.f # "kml" \/ Local)) => B4(c.rect) = RealClient(c)
+Property(c) == ((c.f # "tms_nw" \/ Data.wmts.offered) /\ (c.f # "kml" \/ Local) /\ c.f # "kmlbox") => B4(c.rect) = RealClient(c)
 
 BadBinding == {i \in 1 .. Len(Data.tiles) : ~Binding(Data.tiles[i])}
 BadProperty == {i \in 1 .. Len(Data.tiles) : ~Property(Data.tiles[i])}
